@@ -29,7 +29,8 @@ const (
 var behNames = []string{"pass", "replace", "drop", "error", "sink-ok", "sink-err", "sink-returns-event", "error-with-event"}
 
 type sendPayload struct {
-	ID int
+	ID      int
+	InEvent bool // the payload handed to Send is an *eventlogger.Event (of the sent type) that holds this value as ITS payload
 }
 
 type nodeRec struct {
@@ -114,6 +115,15 @@ func (n *recNode) Process(ctx context.Context, e *el.Event) (*el.Event, error) {
 	if !ok {
 		// first sight of an event: must be a well-formed root event of some Send
 		p, isP := e.Payload.(*sendPayload)
+		if isP && p.InEvent {
+			// a payload is opaque: an *Event handed to Send is the payload of the event Send creates
+			h.rootBad = append(h.rootBad, fmt.Sprintf("S%d: the payload given to Send was an *Event; node %s got an event whose payload is that Event's payload, not the *Event itself", p.ID, n.Label))
+		}
+		if ev, isEv := e.Payload.(*el.Event); isEv {
+			if inner, ok := ev.Payload.(*sendPayload); ok && inner.InEvent && ev != e {
+				p, isP = inner, true
+			}
+		}
 		switch {
 		case !isP:
 			h.rootBad = append(h.rootBad, fmt.Sprintf("node %s got an unknown event with payload %T", n.Label, e.Payload))
